@@ -50,6 +50,17 @@ pub fn all() -> Vec<Prop> {
             shards_thorough: 16,
         },
         Prop {
+            id: "C04",
+            run: props::nan::run_c04,
+            replayers: props::nan::replayers,
+            rule: "Enumeration: all 2^L missing/non-missing masks for L <= 12 (quick) / 16 (thorough) x the 14 MaybeNan impls (f32, f64, Option of u8..u128, i8..i128, N32, N64) x strides {-3,-2,-1,1,2,3} x offsets {0,1,2} inside a sentinel buffer, values distinct (distinct by construction). Random: proptest masks up to 60/200 elements incl. first-only/last-only/alternating/dense/sparse, strides up to +-7 (distinct by hash). Oracle order: metadata of the returned view (pointer, length, stride) must designate distinct element addresses of the input view BEFORE anything is dereferenced; then multiset, no missing element, count, determinism, idempotence, typed references. Non-trivial: at least one missing and one non-missing element and (|stride| != 1 or offset != 0).",
+            assumptions: COMMON_ASSUMPTIONS,
+            profiles_quick: BOTH,
+            profiles_thorough: BOTH,
+            shards_quick: 8,
+            shards_thorough: 16,
+        },
+        Prop {
             id: "C15",
             run: props::sel::run_c15,
             replayers: props::sel::replayers,
